@@ -17,7 +17,7 @@ RULE = (
     "full load, for a generated window (rows a::s with s in {1..5,7,-1,-3}, columns c0:c1) and for a generated list of lines. "
     "Non-trivial: lines>=2 and pixels>=2 and at least two distinct sample words. Distinct = sha1 "
     "of the case dict."
-    " One case in six also writes the index cache and reads the pixels again through it. Stage 'in-place-pairs': two such products with the same file names are materialised one after the other at the same root and both are judged (in two thirds of the pairs the first product leaves its index behind). The encoder also varies the line numbering (usual / restarting / zeros). Stage 'beyond-4GiB': one virtual image of 4.4 GB on vtrace:// (4400 lines of ~1 MB, eight of them with samples, the rest zero and never materialised); lines on both sides of file offsets 2^31 and 2^32, the first, the last and three zero lines are compared with the bytes at their offsets."
+    " One case in six also writes the index cache and reads the pixels again through it. Stage 'in-place-pairs': two such products with the same file names are materialised one after the other at the same root and both are judged (in two thirds of the pairs the first product leaves its index behind). The encoder also varies the line numbering (usual / restarting / zeros). Stage 'beyond-4GiB': one virtual image of 4.4 GB on vtrace:// (4400 lines of ~1 MB, eight of them with samples, the rest zero and never materialised); lines on both sides of file offsets 2^31 and 2^32, the first, the last and three zero lines are compared with the bytes at their offsets. Stage 'cross-level-twins': a level-1.5 and a level-1.1 product whose image records have the same length (192 + 2p = 544 + 8p') and line count are read one after the other in one process, in both orders."
 )
 ASSUMPTIONS = [
     "layout tables under /verif/layout are the reference for where the sample area starts",
@@ -72,6 +72,30 @@ def cases(draw, max_lines=48, max_pixels=32):
     return case
 
 
+def twin_cases():
+    """two products of DIFFERENT levels whose image records have the same length (192 + 2 p = 544 +
+    8 p') and the same number of lines, read one after the other in one process with the same
+    request size: whatever the reader remembers about "records of this size" must not carry over"""
+    for k in (1, 4):
+        for lines, rpc in ((6, 1024), (6, 2)):
+            for order in ("1.5-first", "1.1-first"):
+                yield {"twins": True, "k": k, "lines": lines, "rpc": rpc, "order": order, "vseed": 7 * k + lines}
+
+
+def run_twins(case):
+    out = []
+    sub = {"1.5": {"level": "1.5", "images": [{"lines": case["lines"], "pixels": 176 + 4 * case["k"]}], "rpc": case["rpc"], "fs": "memory", "vseed": case["vseed"],
+                   "window": {"rows": [0, 1], "cols": [0, 2], "list": [0]}},
+           "1.1": {"level": "1.1", "images": [{"lines": case["lines"], "pixels": case["k"]}], "rpc": case["rpc"], "fs": "memory", "vseed": case["vseed"] + 1,
+                   "window": {"rows": [0, 1], "cols": [0, 1], "list": [0]}}}
+    order = ["1.5", "1.1"] if case["order"] == "1.5-first" else ["1.1", "1.5"]
+    for n, level in enumerate(order):
+        for d in run_case(sub[level]):
+            d.setdefault("context", {})["twin"] = f"{level} product, opened {'first' if n == 0 else 'after the other level'}"
+            out.append(d)
+    return out
+
+
 def beyond_4gib_cases():
     """one virtual image of 4.4 GB (4400 lines of ~1 MB; only eight lines carry samples, the rest
     is zero and never materialised): byte offsets pass 2^31 and 2^32"""
@@ -120,10 +144,12 @@ def plan(tier):
     pairs = common.in_place_pairs(cases(16, 8), stale_index=True)
     if tier == "quick":
         return [{"kind": "enum", "name": "beyond-4GiB", "cases": beyond_4gib_cases, "exhaustive": False},
+                {"kind": "enum", "name": "cross-level-twins", "cases": twin_cases, "exhaustive": False},
                 {"kind": "hyp", "name": "products", "strategy": cases(), "examples": 480},
                 {"kind": "hyp", "name": "in-place-pairs", "strategy": pairs, "examples": 80}]
     return [
         {"kind": "enum", "name": "beyond-4GiB", "cases": beyond_4gib_cases, "exhaustive": False},
+        {"kind": "enum", "name": "cross-level-twins", "cases": twin_cases, "exhaustive": False},
         {"kind": "hyp", "name": "products", "strategy": cases(), "examples": 16 * 1200},
         {"kind": "hyp", "name": "in-place-pairs", "strategy": pairs, "examples": 16 * 200},
         {"kind": "hyp", "name": "large", "strategy": cases(400, 64), "examples": 16 * 60},
@@ -139,6 +165,8 @@ def rpc_class(rpc, lines):
 
 
 def classify(case):
+    if case.get("twins"):
+        return True, ["cross-level-twins", f"order={case['order']}"]
     im = case["images"][0]
     nontrivial = im["lines"] >= 2 and im["pixels"] >= 2
     labels = [
@@ -203,6 +231,8 @@ def check_window(case, var, iinfo, exp, where):
 def run_case(case):
     if case.get("beyond_4gib"):
         return run_beyond_4gib(case)
+    if case.get("twins"):
+        return run_twins(case)
     spec = common.spec_from(case)
     files, info = product.build_product(spec)
     out = []
